@@ -168,30 +168,19 @@ Print Assumptions C15_unchanged_list_is_noop.
     a file) and every disabled list is unloaded, every history of refreshes
     (block / allow, forced / scheduled, any sources, failing renames included),
     of engine rebuilds and of set_url calls that rename, enable, disable or
-    re-point a list leads to such a state again, provided no call of the
-    history is a FAILING change of a list's URL (see
-    [C15_metadata_in_step_refuted] for that one). *)
-Theorem C15_metadata_in_step : forall crc hs st,
-  wf crc st -> Forall (hop_keeps_checksum crc) hs -> wf crc (run_hist crc hs st).
+    re-point a list (successfully or not) leads to such a state again. *)
+Theorem C15_metadata_in_step : forall crc hs st, wf crc st -> wf crc (run_hist crc hs st).
 Proof. exact history_wf. Qed.
 Print Assumptions C15_metadata_in_step.
 
-(** ... so after any such history the rule count and the checksum of an
-    enabled list are those of re-parsing its stored file, which reproduces the
-    file. *)
+(** ... so after any history the rule count and the checksum of an enabled
+    list are those of re-parsing its stored file, which reproduces the file. *)
 Theorem C15_metadata_describe_file : forall crc hs st l c,
-  wf crc st -> Forall (hop_keeps_checksum crc) hs -> let st' := run_hist crc hs st in
+  wf crc st -> let st' := run_hist crc hs st in
   In l (r_block st' ++ r_allow st') -> f_enabled l = true -> fget (f_id l) (r_files st') = Some c ->
   describes crc (f_count l) (f_sum l) c.
 Proof. exact history_meta_matches_file. Qed.
 Print Assumptions C15_metadata_describe_file.
-
-(** Without that proviso the statement is false for the code as it is: a
-    failing change of the URL of an enabled list restores URL, name, enabled
-    flag and rule count, not the checksum that [unload] has zeroed. *)
-Theorem C15_metadata_in_step_refuted : ~ metadata_in_step_statement crc32_update.
-Proof. exact metadata_in_step_refuted. Qed.
-Print Assumptions C15_metadata_in_step_refuted.
 
 (** ... and a source that delivers what is stored, in any spelling with the
     same normal form, does not make the file be replaced (A, A and the return
@@ -274,35 +263,30 @@ Proof. exact duplicate_url_is_noop. Qed.
 Print Assumptions C15_duplicate_url_is_noop.
 
 (** A FAILING change of a list's URL (new URL free, its source failing in any
-    of the enumerated ways), exactly: an error is reported; every file (bytes
-    and generation), the engine, i.e. the rules in force, the other array,
-    every other entry, and this entry's URL, name, enabled flag and rule count
-    are as before; its checksum is zero. *)
-Theorem C15_failed_url_change_forgets_checksum : forall crc allow u name nurl o st pre f post,
+    of the enumerated ways): an error is reported and nothing changes: every
+    file (bytes and generation), the engine, i.e. the rules in force, every
+    entry, and this entry's URL, name, enabled flag, rule count and checksum. *)
+Theorem C15_failed_url_change_is_noop : forall crc allow u name nurl o st pre f post,
   arr allow st = pre ++ f :: post -> Forall (other_url u) pre -> f_url f = u ->
   nurl <> u -> url_used nurl st = false -> fails crc o ->
-  let '(rs, er, st') := set_props crc allow u name nurl true o st in
-  rs = false /\ er = true /\ r_files st' = r_files st /\ r_engine st' = r_engine st /\
-  arr (negb allow) st' = arr (negb allow) st /\
-  arr allow st' = pre ++ {| f_id := f_id f; f_url := u; f_enabled := f_enabled f; f_name := f_name f;
-                            f_count := f_count f; f_sum := 0 |} :: post.
-Proof. exact failed_url_change_forgets_checksum. Qed.
-Print Assumptions C15_failed_url_change_forgets_checksum.
+  set_props crc allow u name nurl true o st = (false, true, st).
+Proof. exact failed_url_change_is_noop. Qed.
+Print Assumptions C15_failed_url_change_is_noop.
 
-(** So the clause "a set_url call that reports an error leaves the state as
-    it was" is false for the code as it is (witness: a block list with one
-    stored rule, pointed to a source that answers with an HTML page). *)
-Theorem C15_failed_set_is_noop_refuted : ~ failed_set_is_noop_statement crc32_update.
-Proof. exact failed_set_is_noop_refuted. Qed.
-Print Assumptions C15_failed_set_is_noop_refuted.
+(** Whatever the call (unknown URL, duplicate URL, failing download after an
+    enable or a URL change, in either array): a set_url call that reports an
+    error leaves the whole state as it was. *)
+Theorem C15_failed_set_is_noop : forall crc allow u name nurl en o st rs st',
+  set_props crc allow u name nurl en o st = (rs, true, st') -> st' = st.
+Proof. exact failed_set_is_noop. Qed.
+Print Assumptions C15_failed_set_is_noop.
 
 (** Non-vacuity for the set_url theorems: a well-formed state with a stored
     list; disabling takes its rule out of force and unloads it, enabling it
     again with the same bytes puts the rule back (the file is replaced once
     more), enabling with an HTML page changes nothing; pointing it to another
     source stores and enforces that source's rule, a URL that another list has
-    is refused, a failing source behind the new URL leaves everything but the
-    checksum. *)
+    is refused, a failing source behind the new URL changes nothing. *)
 Example C15_history_premises_satisfiable :
   wf crc32_update RExamples.st0 /\ wf crc32_update RExamples.st1 /\ wf crc32_update SetExamples.st_moved.
 Proof. exact (conj (proj1 wf_example) (conj (proj2 wf_example) url_change_wf)). Qed.
@@ -327,13 +311,10 @@ Example C15_url_change_satisfiable :
   set_props crc32_update false 101 [120] 11 true (OBody RExamples.good false) SetExamples.st_moved
     = (false, true, SetExamples.st_moved) /\
   set_props crc32_update false 101 [120] 102 true (OBody RExamples.html false) SetExamples.st_moved
-    = (false, true, SetExamples.st_failed) /\
-  r_files SetExamples.st_failed = r_files SetExamples.st_moved /\
-  r_engine SetExamples.st_failed = r_engine SetExamples.st_moved /\
-  map f_url (r_block SetExamples.st_failed) = [101] /\
-  map f_count (r_block SetExamples.st_failed) = [1] /\
-  map f_sum (r_block SetExamples.st_moved) <> [0] /\
-  map f_sum (r_block SetExamples.st_failed) = [0].
+    = (false, true, SetExamples.st_moved) /\
+  SetExamples.st_failed = SetExamples.st_moved /\
+  map f_count (r_block SetExamples.st_moved) = [1] /\
+  map f_sum (r_block SetExamples.st_moved) <> [0].
 Proof. exact url_change_example. Qed.
 
 (** Non-vacuity: a successful refresh of a block and an allow list, then one
